@@ -326,22 +326,36 @@ def _r1(ctx):
         ctx.violated(m, r[0] if r else m.node, "MinerBase.effective_damage_sum does not return the clamped function's value")
 
 
-def _amplitude_max_sites(prog, fi, depth=0, seen=None):
-    """(.max() sites on values derived from <x>.amplitude) reachable from fi: list of (fi, call, masked)"""
+def _amplitude_max_sites(prog, fi, depth=0, seen=None, roles=None):
+    """(.max() sites on values derived from <x>.amplitude) reachable from fi: list of (fi, call, masked).  `roles` says which
+    parameters of `fi` were handed an amplitude vector ("amp") / a cycle-count vector ("cyc") by the caller."""
     seen = seen if seen is not None else set()
-    if fi.key in seen or depth > 4:
+    roles = dict(roles or {})
+    key = (fi.key, tuple(sorted(roles.items())))
+    if key in seen or depth > 4:
         return []
-    seen.add(fi.key)
+    seen.add(key)
     out = []
-    derived = {}
+    derived = dict(roles)
     for s in walk_function(fi.node):
         if isinstance(s, ast.Assign) and isinstance(s.targets[0], ast.Name):
             v = s.value
-            src = [n for n in ast.walk(v) if isinstance(n, ast.Attribute) and n.attr == "amplitude"]
-            if src or any(isinstance(n, ast.Name) and n.id in derived for n in ast.walk(v)):
-                # only pure renamings / normalisations keep the 'amplitude vector' role
-                if isinstance(v, ast.Attribute) and v.attr == "amplitude":
-                    derived[s.targets[0].id] = "amp"
+            # only pure renamings keep the 'amplitude vector' / 'cycle vector' role
+            if isinstance(v, ast.Attribute) and v.attr == "amplitude":
+                derived[s.targets[0].id] = "amp"
+            elif isinstance(v, ast.Attribute) and v.attr == "cycles":
+                derived[s.targets[0].id] = "cyc"
+            elif isinstance(v, ast.Name) and v.id in derived:
+                derived[s.targets[0].id] = derived[v.id]
+
+    def role_of(e):
+        if isinstance(e, ast.Attribute) and e.attr == "amplitude":
+            return "amp"
+        if isinstance(e, ast.Attribute) and e.attr == "cycles":
+            return "cyc"
+        if isinstance(e, ast.Name):
+            return derived.get(e.id)
+        return None
     for c in calls_in(fi.node):
         if isinstance(c.func, ast.Attribute) and c.func.attr == "max" and not c.args:
             recv = c.func.value
@@ -349,24 +363,30 @@ def _amplitude_max_sites(prog, fi, depth=0, seen=None):
             masked = False
             if isinstance(base, ast.Subscript):
                 masked = any(isinstance(n, ast.Compare) for n in ast.walk(base.slice))
-                mask_ok = masked and _is_occupancy_mask(base.slice, fi)
+                mask_ok = masked and _is_occupancy_mask(base.slice, fi, derived)
                 base = base.value
                 masked = mask_ok if masked else False
                 if not mask_ok and any(isinstance(n, ast.Compare) for n in ast.walk(recv.slice)):
                     masked = "other"
-            is_amp = (isinstance(base, ast.Attribute) and base.attr == "amplitude") or \
-                (isinstance(base, ast.Name) and derived.get(base.id) == "amp")
-            if is_amp:
+            if role_of(base) == "amp":
                 out.append((fi, c, masked))
         for k in prog.resolve_call(fi, c):
             callee = prog.functions.get(k)
             if callee is not None and callee.module.name.startswith("pylife.strength"):
-                out += _amplitude_max_sites(prog, callee, depth + 1, seen)
+                ps = [p_ for p_ in callee.params if p_ not in ("self", "cls")]
+                sub = {}
+                for i, a_ in enumerate(c.args):
+                    if i < len(ps) and role_of(a_):
+                        sub[ps[i]] = role_of(a_)
+                for kw in c.keywords:
+                    if kw.arg in ps and role_of(kw.value):
+                        sub[kw.arg] = role_of(kw.value)
+                out += _amplitude_max_sites(prog, callee, depth + 1, seen, sub)
     return out
 
 
-def _is_occupancy_mask(sl, fi):
-    """mask of the form <cycles> > 0 where <cycles> is .cycles of the collective or a local bound to it"""
+def _is_occupancy_mask(sl, fi, roles=None):
+    """mask of the form <cycles> > 0 where <cycles> is .cycles of the collective or a local / parameter bound to it"""
     cmp_ = [n for n in ast.walk(sl) if isinstance(n, ast.Compare)]
     if len(cmp_) != 1 or not isinstance(cmp_[0].ops[0], ast.Gt) or const_value(cmp_[0].comparators[0]) != 0:
         return False
@@ -374,10 +394,7 @@ def _is_occupancy_mask(sl, fi):
     if isinstance(l, ast.Attribute) and l.attr == "cycles":
         return True
     if isinstance(l, ast.Name):
-        for s in walk_function(fi.node):
-            if isinstance(s, ast.Assign) and isinstance(s.targets[0], ast.Name) and s.targets[0].id == l.id and \
-                    isinstance(s.value, ast.Attribute) and s.value.attr == "cycles":
-                return True
+        return (roles or {}).get(l.id) == "cyc"
     return False
 
 
@@ -394,8 +411,8 @@ def _r2(ctx):
     for fi, c, masked in sites:
         uniq[(fi.key, norm_text(c))] = (fi, c, masked)
     sites = list(uniq.values())
-    if len(sites) < 2:
-        raise AnalysisError("only %d reference-amplitude sites found on the Gassner path" % len(sites))
+    if not sites:
+        raise AnalysisError("no reference-amplitude site found on the Gassner path")
     kinds = {m for _, _, m in sites}
     if len(kinds) == 1 and "other" not in kinds:
         for fi, c, m in sites:
